@@ -111,11 +111,11 @@ MCPresence == \E c \in Pick(Open), k \in Pick({"kAll", "kWO"}), w \in Pick(Words
     /\ Emit([n |-> "presence", c |-> c, k |-> k, w |-> w, syn |-> "ok", status |-> status, chg |-> chg])
 
 MCEnd == \E c \in Pick(Open), how \in Pick({"disconnect", "drop", "cut", "garbage", "panic"}) :
-    /\ (Gen = "sim" /\ Fam \notin {"ending"}) => RandomElement(1..4) = 1      \* endings are rarer in long random sessions
+    /\ (Gen = "sim" /\ Fam \notin {"ending", "retain"}) => RandomElement(1..4) = 1      \* endings are rarer in long random sessions
     /\ In({"ending", "presence"}) \/ (Fam \in {"pubsub", "hostile", "retain"} /\ how = "drop")
     /\ End(c) /\ Emit([n |-> "end", c |-> c, how |-> how])
 
-MCRestart == /\ Fam = "retain" /\ ~Small /\ Len(store[HomeMap["c1"]]) > 0 /\ (Gen = "sim" => RandomElement(1..2) = 1)
+MCRestart == /\ Fam = "retain" /\ ~Small /\ Len(store[HomeMap["c1"]]) > 0
              /\ Restart /\ Emit([n |-> "restart"])
 
 MCHostile == \E c \in Pick(Open), cls \in Pick(HostileClosing \cup HostileSurviving), closed \in BOOLEAN :
@@ -124,10 +124,14 @@ MCHostile == \E c \in Pick(Open), cls \in Pick(HostileClosing \cup HostileSurviv
     /\ (Gen = "sim" => (closed <=> cls \in HostileClosing))      \* the generator does not know; the trace carries what happened
     /\ Hostile(c, cls, closed) /\ Emit([n |-> "hostile", c |-> c, cls |-> cls])
 
+MCStranger == \E cls \in Pick({"nothing", "ping", "disconnect", "cut-connect", "garbage", "sub-first", "pub-first"}) :
+    /\ Fam = "hostile"
+    /\ Stranger /\ Emit([n |-> "stranger", cls |-> cls])
+
 MCCluster == \E fn \in Pick({"OnGossip", "OnGossipBroadcast", "OnGossipUnicast", "DecodeState", "DecodeFrame", "DecodeMessage"}), i \in Pick(0..199) :
     /\ Fam = "hostile" /\ (Gen # "sim" => i = 0)
     /\ ClusterHostile /\ Emit([n |-> "cluster", fn |-> fn, idx |-> i])
 
 MCNext == /\ nops < MaxOps
-          /\ (MCConnect \/ MCSubscribe \/ MCUnsubscribe \/ MCPublish \/ MCPublishVia \/ MCLink \/ MCPresence \/ MCEnd \/ MCRestart \/ MCHostile \/ MCCluster)
+          /\ (MCConnect \/ MCSubscribe \/ MCUnsubscribe \/ MCPublish \/ MCPublishVia \/ MCLink \/ MCPresence \/ MCEnd \/ MCRestart \/ MCHostile \/ MCStranger \/ MCCluster)
 =============================================================================
